@@ -62,7 +62,7 @@ def run(tier: str, seed: int) -> int:
     po = common.proof_obligations(PROP)
     findings = common.findings_for(PROP, also=("C01",))
     n = 300 if tier == "quick" else 6000
-    sp = [(seed * 1_000_003 + i, ["subquery", "subquery", "window", "agg", "general", "join", "scen_subq_count", "subquery", "scen_hidden_window_group"][i % 9]) for i in range(n)]
+    sp = [(seed * 1_000_003 + i, ["subquery", "subquery", "window", "agg", "general", "join", "scen_subq_count", "subquery", "scen_hidden_window_group", "scen_subq_group", "scen_subq_hidden"][i % 11]) for i in range(n)]
     results = campaign.run_programs(sp, "oracle_c08")
     st = campaign.stats_of(results)
 
